@@ -1139,6 +1139,14 @@ func runC04(c *Ctx, pr *PropertyRun) {
 
 	preconditionFirstRule(c, pr, "C04")
 
+	// end to end: what reaches the client when the precondition fails is 412
+	// (or 400 for a tag that is not a quoted string), whatever the adapter
+	// between the file system and the HTTP layer makes of the error
+	rc := NewRule("C04", "C04.refusal-codes", "with no failing operating-system call PUT and DELETE are refused only with 400, 404 (DELETE of a missing resource) or 412 — explored through the whole file server (E2)")
+	rc.Exhaustive = true
+	pr.Rules = append(pr.Rules, rc)
+	codeDecidedRefusals(c, rc, exploreFileServer(c, rc), map[string]bool{"PUT": true, "DELETE": true})
+
 	// the option fields arrive at the check in the right positions
 	arg := NewRule("C04", "C04.check-args", "LocalFileSystem hands options.IfMatch to the check's If-Match parameter and options.IfNoneMatch to its If-None-Match parameter, unaltered, together with the Stat result of the resource (E1 PAIR)")
 	pr.Rules = append(pr.Rules, arg)
